@@ -407,6 +407,80 @@ thread_local! {
     static TEARDOWN: std::cell::RefCell<Option<TeardownWork>> = const { std::cell::RefCell::new(None) };
 }
 
+/// Like `TeardownWork`, but registered as the very first thread-local of a
+/// raw (pthread_create) thread — before any allocator request is made on it —
+/// so that its destructor runs *after* the destructors of every thread-local
+/// registered later (LIFO), in particular after any per-thread state
+/// `AllocProfiler` might keep in a thread-local with a destructor.
+struct LateWork {
+    cells: std::cell::RefCell<Vec<Marked>>,
+}
+
+impl Drop for LateWork {
+    fn drop(&mut self) {
+        T.with(|t| t.in_teardown.set(true));
+        N_LATE_TEARDOWN.fetch_add(1, Relaxed);
+        let cells = std::mem::take(&mut *self.cells.borrow_mut());
+        let organic: Vec<u8> = Vec::with_capacity(64);
+        for m in &cells {
+            if PANICS.load(Relaxed) > 0 {
+                break;
+            }
+            if let Err(e) = issue(*m) {
+                if let Ok(mut s) = MISMATCHES.lock() {
+                    s.push(format!("in the last TLS destructor of a thread: {e:?}"));
+                }
+            }
+        }
+        drop(organic);
+        drop(cells);
+        T.with(|t| t.in_teardown.set(false));
+    }
+}
+
+thread_local! {
+    static LATE: LateWork = const { LateWork { cells: std::cell::RefCell::new(Vec::new()) } };
+}
+
+static N_LATE_TEARDOWN: AtomicU64 = AtomicU64::new(0);
+static N_RAW_FIRST: AtomicU64 = AtomicU64::new(0);
+
+struct RawArg {
+    cells: Vec<Marked>,
+}
+
+extern "C" fn raw_thread_main(arg: *mut libc::c_void) -> *mut libc::c_void {
+    // Nothing has been allocated on this thread yet: register the late
+    // destructor first, then make the thread's very first request a marked
+    // one.
+    LATE.with(|_| ());
+    // SAFETY: the parent leaked a Box<RawArg> for us.
+    let arg: Box<RawArg> = unsafe { Box::from_raw(arg as *mut RawArg) };
+    let first_on_thread = T.with(|t| t.requests.get() == 0);
+    if first_on_thread {
+        N_RAW_FIRST.fetch_add(1, Relaxed);
+    }
+    issue_logged(arg.cells[0], "raw_thread_first_request");
+    for &m in &arg.cells[1..] {
+        issue_logged(m, "raw_thread");
+    }
+    LATE.with(|l| *l.cells.borrow_mut() = arg.cells.clone());
+    std::ptr::null_mut()
+}
+
+/// Runs `cells` on a thread created with `pthread_create` directly (no Rust
+/// runtime code runs on it before `raw_thread_main`).
+fn run_raw_thread(cells: Vec<Marked>) {
+    let arg = Box::into_raw(Box::new(RawArg { cells })) as *mut libc::c_void;
+    // SAFETY: plain pthread usage; the thread is joined.
+    unsafe {
+        let mut tid: libc::pthread_t = std::mem::zeroed();
+        if libc::pthread_create(&mut tid, std::ptr::null(), raw_thread_main, arg) == 0 {
+            libc::pthread_join(tid, std::ptr::null_mut());
+        }
+    }
+}
+
 static MISMATCHES: std::sync::Mutex<Vec<String>> = std::sync::Mutex::new(Vec::new());
 
 fn issue_logged(m: Marked, phase: &str) {
@@ -452,6 +526,13 @@ fn enumerate_grid() -> (u64, u64) {
         h.join().unwrap();
         threads += 1;
         cells += 2 * 64;
+    }
+    // Raw threads: first request of the thread is a marked one; the grid
+    // chunk is issued again from the thread's last TLS destructor.
+    for chunk in g.chunks(128) {
+        run_raw_thread(chunk.to_vec());
+        threads += 1;
+        cells += 2 * chunk.len() as u64;
     }
     (cells, threads)
 }
@@ -593,8 +674,8 @@ fn check(tier: common::Tier) -> i32 {
         "level": "fault_enumeration",
         "coverage": {
             "evaluations": marked.iter().sum::<u64>() + organic.iter().sum::<u64>(),
-            "distinct_nontrivial": g.len() * 3 + distinct.len(),
-            "rule": "every allocator request of the process passes the sandwich and is checked on the fly (request == inner call, exactly one inner call, returned == inner result, no nested request); the grid method x size x alignment x inner result (x new size) is enumerated completely in three thread phases (steady state, a fresh thread's first action, a TLS destructor during tear-down): distinct_nontrivial = grid cells x 3 phases + distinct (threads, script length, schedule signature) of the seeded simulated runs",
+            "distinct_nontrivial": g.len() * 4 + distinct.len(),
+            "rule": "every allocator request of the process passes the sandwich and is checked on the fly (request == inner call, exactly one inner call, returned == inner result, no nested request); the grid method x size x alignment x inner result (x new size) is enumerated completely in four thread phases (steady state; a fresh thread; a TLS destructor during tear-down; raw pthread threads whose very first request is a marked one and which re-issue the grid from their LAST thread-local destructor, i.e. after every thread-local registered later has been destroyed): distinct_nontrivial = grid cells x 4 phases + distinct (threads, script length, schedule signature) of the seeded simulated runs",
             "samples": samples,
             "grid_cells": g.len(),
             "grid_cells_issued": grid_cells,
@@ -608,7 +689,9 @@ fn check(tier: common::Tier) -> i32 {
             "faults_fired": {"alloc_null": N_NULL.load(Relaxed), "realloc_moves": marked[2] / 3},
             "probes": {
                 "first_request_on_a_thread": N_FIRST_ON_THREAD.load(Relaxed),
-                "marked_request_as_first_request_of_thread": N_MARKED_FIRST.load(Relaxed),
+                "marked_request_as_first_request_of_a_raw_thread": N_MARKED_FIRST.load(Relaxed),
+                "raw_threads_whose_first_request_was_ours": N_RAW_FIRST.load(Relaxed),
+                "threads_with_requests_from_their_last_tls_destructor": N_LATE_TEARDOWN.load(Relaxed),
                 "request_during_tls_teardown": N_TEARDOWN.load(Relaxed),
                 "marked_request_during_tls_teardown": N_MARKED_TEARDOWN.load(Relaxed),
             },
